@@ -321,6 +321,9 @@ def r4(ctx):
                        're-assembled read name uses; the molecular identifier is BC + RX + corrected index; the sample is library_cellindex')
 def r5(ctx):
     tt = tag_table(ctx)
+    if _r5_headers_by_tokens(ctx):
+        _r5_identifier(ctx)
+        return
     f = ctx.fn(BASEDEMUX, 'TaggedRecord.asIlluminaHeader')
     fmt = [c for c in walk_no_nested(f) if isinstance(c, ast.Constant) and isinstance(c.value, str) and '{' in c.value]
     keys = re.findall(r'\{(\w+)\}', fmt[0].value) if fmt else []
@@ -350,6 +353,65 @@ def r5(ctx):
                 ctx.emit('C04-R5', ok, BASEDEMUX, s, f'{parser.split(".")[-1]}: {len(names)}-field header variant binds {names[:7]}... ' + ('in canonical order' if ok else
                          f'NOT in the canonical order {CANONICAL[:len(names)]}: fields are swapped for this header variant'), key=f'{parser}:unpack-order:{len(names)}',
                          what=f'{parser}: a header variant binds the Illumina fields in a different order')
+    _r5_identifier(ctx)
+
+
+def _r5_headers_by_tokens(ctx):
+    """The header parsers and the read-name assembler only move the fields of the header around: they are evaluated on headers whose fields are the
+    tokens f0..f10 (one header per layout the parser accepts) and the resulting tag table is compared with the canonical assignment; the assembler
+    is evaluated on a tag table of tokens.  False when a construct is outside the interpreted subset (the structural reading is used then)."""
+    from ..consteval import run_function, Raised
+    mod = ctx.ix.module(BASEDEMUX)
+    mc = {k: v for k, v in module_consts(mod).items() if v is not TOP}
+    canon = ['Is', 'RN', 'Fc', 'La', 'Ti', 'CX', 'CY', 'RP', 'Fi', 'CN']
+    out = []
+    try:
+        h = ctx.fn(BASEDEMUX, 'TaggedRecord.asIlluminaHeader')
+        env = dict(mc)
+        env['self.tags'] = {k: f'<{k}>' for k in canon + ['aa', 'aA', 'aI', 'LY', 'bi', 'BC', 'RX']}
+        name = run_function(h, ['<self>'], env=env)
+        out.append(('illumina-header-format', name == ':'.join(f'<{k}>' for k in canon[:7]), h, f'read name is re-assembled as {name}', None))
+        g = ctx.fn(BASEDEMUX, 'TaggedRecord._parse_illumina_header')
+        layouts = {11: 'f0:f1:f2:f3:f4:f5:f6 f7:f8:f9:f10', 10: 'f0:f1:f2:f3:f4:f5:f6 f7:f8:f9', 7: 'f0:f1:f2:f3:f4:f5:f6'}
+        for nf, hdr in layouts.items():
+            env = dict(mc)
+            env['self.tags'] = {}
+            try:
+                run_function(g, ['<self>', hdr, None, None], env=env)
+            except Raised as r_:
+                out.append((f'TaggedRecord._parse_illumina_header:unpack-order:{nf}', nf != 11, g, f'_parse_illumina_header refuses the {nf}-field header layout ({r_.name})', None))
+                continue
+            tags = env['self.tags']
+            want = {k: f'f{i}' for i, k in enumerate(canon[:min(nf, 10)])}
+            if nf == 11:
+                want['aa'] = 'f10'
+            wrong = {k: (tags.get(k), v) for k, v in want.items() if tags.get(k) != v}
+            out.append((f'TaggedRecord._parse_illumina_header:unpack-order:{nf}', not wrong, g, f'_parse_illumina_header, {nf}-field header: ' + ('every key holds the like-positioned field' if not wrong else
+                        f'key -> (stored, expected field) {wrong}: fields are swapped / missing for this header variant'), wrong or None))
+        p3 = ctx.fn(BASEDEMUX, 'TaggedRecord.parse_3dec_header')
+        rec = p3.args.args[1].arg
+        env = dict(mc)
+        env['self.tags'] = {}
+        env[f'{rec}.header'] = 'Cluster_s_f3_f4_f7'
+        run_function(p3, ['<self>', '<record>', None, None], env=env)
+        tags = env['self.tags']
+        want = {'La': 'f3', 'Ti': 'f4', 'RP': 'f7'}
+        wrong = {k: (tags.get(k), v) for k, v in want.items() if tags.get(k) != v}
+        missing = [k for k in canon[:7] if k not in tags]
+        out.append(('TaggedRecord.parse_3dec_header:sets-keys', not wrong and not missing, p3, 'parse_3dec_header: lane, tile and read number from the like-positioned fields, every key of the read name set' if not wrong and not missing
+                    else f'parse_3dec_header: wrong {wrong}, missing {missing}', wrong or None))
+    except Unfoldable:
+        return False
+    except Raised:
+        return False
+    except Exception:
+        return False
+    for key, ok, node, text, wit in out:
+        ctx.emit('C04-R5', ok, BASEDEMUX, node, text, key=key, witness=wit, what='header parser / read-name assembler disagree on the Illumina fields')
+    return True
+
+
+def _r5_identifier(ctx):
     t = ctx.fn(BASEDEMUX, 'TaggedRecord.tagPysamRead')
     lst = [s for s in t.body if isinstance(s, ast.Assign) and isinstance(s.value, ast.List) and all(isinstance(e, ast.Tuple) for e in s.value.elts) and s.value.elts]
     order = [e.elts[0].value for e in lst[0].value.elts if isinstance(e.elts[0], ast.Constant)] if lst else []
